@@ -194,8 +194,8 @@ theorem C12_pnm_mono_read_witness :
       Outcome.done [80, 52, 32, 56, 32, 49, 32, 0xd1] (some ⟨8, 1, [[false, true, false, false, false, true, true, true]]⟩) := by
   decide
 
-private theorem pnm_mono_file (rowEnc : List Bool → Bytes) (rowDec : Bytes → List Bool) (g : List Bool → List Bool)
-    (w h : Nat) (rows : List (List Bool)) (hlen : rows.length = h) (hw : PnmIntOk w) (hh : PnmIntOk h)
+private theorem pnm_mono_file {β} (rowEnc : β → Bytes) (rowDec : Bytes → List Bool) (g : β → List Bool)
+    (w h : Nat) (rows : List β) (hlen : rows.length = h) (hw : PnmIntOk w) (hh : PnmIntOk h)
     (hsl : ∀ r ∈ rows, (rowEnc r).length = (w + 7) / 8)
     (hrt : ∀ r ∈ rows, sliceRow 0 w (rowDec (rowEnc r)) = g r) :
     decodePnmMonoWith rowDec (pnmHeader 4 w h ++ (rows.map rowEnc).flatten) Settings.full = some ⟨w, h, rows.map g⟩ := by
@@ -218,6 +218,21 @@ private theorem pnm_mono_file (rowEnc : List Bool → Bytes) (rowDec : Bytes →
   have hmem : rows[i] ∈ rows := List.getElem_mem _
   rw [padTo, hsl _ hmem, Nat.sub_self, List.replicate_zero, List.append_nil]
   exact hrt _ hmem
+
+/-- one row through the fixed writer and the fixed reader: whatever the unused bits of the last byte hold -/
+private theorem mono_fixed_row (w : Nat) (r pad : List Bool) (hr : r.length = w) (hp : (w + 7) / 8 * 8 ≤ w + pad.length) :
+    (pnmMonoRowEncFixed w pad r).length = (w + 7) / 8 ∧
+    sliceRow 0 w (pnmMonoRowDecFixed (pnmMonoRowEncFixed w pad r)) = r := by
+  obtain ⟨c1, c2, c3⟩ := chunks8_spec ((w + 7) / 8) (r ++ pad) (by simp [hr]; omega)
+  refine ⟨by simp [pnmMonoRowEncFixed, c3], ?_⟩
+  have e : pnmMonoRowDecFixed (pnmMonoRowEncFixed w pad r) = (chunks8 ((w + 7) / 8) (r ++ pad)).flatMap id := by
+    simp only [pnmMonoRowDecFixed, pnmMonoRowEncFixed, List.flatMap_map]
+    apply flatMap_chunks_congr
+    intro c hc
+    obtain ⟨x0, x1, x2, x3, x4, x5, x6, x7, rfl⟩ := len8 (c1 c hc)
+    exact mono_chunk_fixed x0 x1 x2 x3 x4 x5 x6 x7
+  rw [e, List.flatMap_id, c2, sliceRow, List.drop_zero, List.take_take,
+    Nat.min_eq_left (by omega), List.take_left' hr]
 
 /-- what DOES hold on the current tree (width a multiple of 8, every height, every content): the file is written, dimensions
     survive, and every group of 8 pixels comes back with each of its halves reversed (`monoScramble`) -/
@@ -267,22 +282,50 @@ theorem C12_pnm_mono_roundtrip_proposed_fix (pad : List Bool → List Bool) (hpa
   obtain ⟨hlen, hrow⟩ := wf
   simp only at hlen hrow hw hh
   have key : ∀ r ∈ rows, (pnmMonoRowEncFixed w (pad r) r).length = (w + 7) / 8 ∧
-      sliceRow 0 w (pnmMonoRowDecFixed (pnmMonoRowEncFixed w (pad r) r)) = r := by
-    intro r hr
-    have hp := hpad r
-    obtain ⟨c1, c2, c3⟩ := chunks8_spec ((w + 7) / 8) (r ++ pad r) (by simp [hrow r hr]; omega)
-    refine ⟨by simp [pnmMonoRowEncFixed, c3], ?_⟩
-    have e : pnmMonoRowDecFixed (pnmMonoRowEncFixed w (pad r) r) = (chunks8 ((w + 7) / 8) (r ++ pad r)).flatMap id := by
-      simp only [pnmMonoRowDecFixed, pnmMonoRowEncFixed, List.flatMap_map]
-      apply flatMap_chunks_congr
-      intro c hc
-      obtain ⟨x0, x1, x2, x3, x4, x5, x6, x7, rfl⟩ := len8 (c1 c hc)
-      exact mono_chunk_fixed x0 x1 x2 x3 x4 x5 x6 x7
-    rw [e, List.flatMap_id, c2, sliceRow, List.drop_zero, List.take_take,
-      Nat.min_eq_left (by omega), List.take_left' (hrow r hr)]
+      sliceRow 0 w (pnmMonoRowDecFixed (pnmMonoRowEncFixed w (pad r) r)) = r :=
+    fun r hr => mono_fixed_row w r (pad r) (hrow r hr) (by have := hpad r; omega)
   have := pnm_mono_file (fun r => pnmMonoRowEncFixed w (pad r) r) pnmMonoRowDecFixed id w h rows hlen hw hh
     (fun r hr => (key r hr).1) (fun r hr => (key r hr).2)
   simpa [decodePnmMonoFixed, encodePnmMonoFixed] using this
+
+private theorem length_bits (buf : Bytes) : (buf.flatMap bitsLsb).length = 8 * buf.length := by
+  induction buf with
+  | nil => rfl
+  | cons b bs ih => simp [List.flatMap_cons, ih, bitsLsb]; omega
+
+/-- the executable fixed writer (one reused row buffer) writes, for every row, that row with SOME content of the unused bits -/
+private theorem writeFixed_zip (w : Nat) : ∀ (rows : List (List Bool)) (buf : Bytes), buf.length = (w + 7) / 8 →
+    (∀ r ∈ rows, r.length = w) →
+    ∃ pads : List (List Bool), pads.length = rows.length ∧ (∀ p ∈ pads, (w + 7) / 8 * 8 ≤ w + p.length) ∧
+      pnmMonoWriteFixed w buf rows = ((rows.zip pads).map (fun rp => pnmMonoRowEncFixed w rp.2 rp.1)).flatten
+  | [], _, _, _ => ⟨[], rfl, by simp, by simp [pnmMonoWriteFixed]⟩
+  | r :: rs, buf, hb, hr => by
+    have hpl : (w + 7) / 8 * 8 ≤ w + ((buf.flatMap bitsLsb).drop w).length := by
+      rw [List.length_drop, length_bits, hb]; omega
+    have hout := (mono_fixed_row w r ((buf.flatMap bitsLsb).drop w) (hr r (by simp)) hpl).1
+    obtain ⟨pads, h1, h2, h3⟩ := writeFixed_zip w rs _ hout (fun x hx => hr x (by simp [hx]))
+    refine ⟨(buf.flatMap bitsLsb).drop w :: pads, by simp [h1], ?_, ?_⟩
+    · intro p hp
+      rcases List.mem_cons.1 hp with rfl | hp
+      · exact hpl
+      · exact h2 p hp
+    · simp only [pnmMonoWriteFixed, List.zip_cons_cons, List.map_cons, List.flatten_cons, h3]
+
+/-- the same for the writer as it executes (the model the check runs against a tree that carries the fix) -/
+theorem C12_pnm_mono_roundtrip_proposed_fix_exec (img : Img Bool) (wf : img.WF) (hw : PnmIntOk img.w) (hh : PnmIntOk img.h) :
+    decodePnmMonoFixed (encodePnmMonoFixedExec img) Settings.full = some img := by
+  obtain ⟨w, h, rows⟩ := img
+  obtain ⟨hlen, hrow⟩ := wf
+  simp only at hlen hrow hw hh
+  obtain ⟨pads, h1, h2, h3⟩ := writeFixed_zip w rows (List.replicate ((w + 7) / 8) 0) (by simp) hrow
+  have hz : (rows.zip pads).length = h := by simp [h1, hlen]
+  have := pnm_mono_file (fun rp : List Bool × List Bool => pnmMonoRowEncFixed w rp.2 rp.1) pnmMonoRowDecFixed Prod.fst w h
+    (rows.zip pads) hz hw hh
+    (fun rp hrp => (mono_fixed_row w rp.1 rp.2 (hrow _ (List.of_mem_zip hrp).1) (h2 _ (List.of_mem_zip hrp).2)).1)
+    (fun rp hrp => (mono_fixed_row w rp.1 rp.2 (hrow _ (List.of_mem_zip hrp).1) (h2 _ (List.of_mem_zip hrp).2)).2)
+  have hfst : (rows.zip pads).map Prod.fst = rows := List.map_fst_zip (by omega)
+  rw [hfst] at this
+  simpa [decodePnmMonoFixed, encodePnmMonoFixedExec, h3] using this
 
 example : (⟨16, 1, [[true, false, true, true, false, false, false, true, true, true, true, false, true, false, false, false]]⟩ : Img Bool).w % 8 = 0 := rfl
 
